@@ -32,6 +32,7 @@ def run(ctx: Ctx):
     ctx.attempt(updates, ctx)
     ctx.attempt(available_props, ctx)
     ctx.attempt(phases, ctx)
+    ctx.attempt(driver_updates_total, ctx)
     ctx.attempt(dispatcher_avail, ctx)
     ctx.floor("CMP.time-in-range", 1)
     ctx.floor("CMP.shift-flip", 2)
@@ -123,19 +124,32 @@ def updates(ctx: Ctx):
             return "other"
 
         paths = flow.paths(fn.node)
-        rows = []
-        for has in (False, True):
-            for o in (False, True):
-                for vok in (False, True):
+        import itertools
+        extras: list = []  # branch conditions outside (schedule exists, on shift, vehicle exists): free, both values tried
+        while True:
+            rows = []
+            again = False
+            for has, o, vok in itertools.product((False, True), repeat=3):
+                for xv in itertools.product((False, True), repeat=len(extras)):
                     free = {sched: has, on: o, veh: vok}
+                    free.update(dict(zip(extras, xv)))
                     evl = cmp.Evaluator({}, free)
                     try:
                         p = cmp.taken_path(paths, evl)
                     except cmp.Unknown as u:
-                        raise AnalysisError(f"{cname}.update: branch condition outside (schedule exists, on shift, vehicle exists): {flow.dump(u.node)[:80]}")
-                    rows.append(((has, o, vok), label(p) if p is not None else "<none>"))
+                        d = flow.dump(u.node)
+                        if d in extras or len(extras) >= 3:
+                            raise AnalysisError(f"{cname}.update: branch condition cannot be evaluated: {d[:80]}")
+                        extras.append(d)
+                        again = True
+                        break
+                    rows.append(((has, o, vok) + tuple(xv), label(p) if p is not None else "<none>"))
+                if again:
+                    break
+            if not again:
+                break
         bad = []
-        for (has, o, vok), lab in rows:
+        for (has, o, vok, *_xv), lab in rows:
             flip = want_flip(has, o)
             if flip and vok:
                 want = "flip"
@@ -144,10 +158,10 @@ def updates(ctx: Ctx):
             else:
                 want = ("stay", "error") if not vok else ("stay",)
             if (lab != want) if isinstance(want, str) else (lab not in want):
-                bad.append(((has, o, vok), lab, want))
+                bad.append(((has, o, vok) + tuple(_xv), lab, want))
         ctx.check(not bad, "D2", "CMP.shift-flip", f"{cname}.update: class flips to {next_cls} with one {ev_type} event exactly when the schedule says so", fn,
                   why_ok="8 valuations of (schedule exists, on shift, vehicle exists) agree",
-                  why_bad=f"(has_schedule, on_shift, vehicle) -> got vs want: {bad[:4]}", construct=f"{cname}.update:table", witness={"rows": [str(r) for r in rows]})
+                  why_bad=f"(has_schedule, on_shift, vehicle{''.join(', ' + x[:50] for x in extras)}) -> got vs want: {bad[:4]}", construct=f"{cname}.update:table", witness={"rows": [str(r) for r in rows]})
     # apply_new_driver_state commits the new driver state on that vehicle
     fn = repo.func(DS, "DriverState.apply_new_driver_state")
     sim, vid, st = fn.params[1:4]
@@ -160,6 +174,28 @@ def updates(ctx: Ctx):
                        "driver classes change only in the two human update methods", 2)
     rules.rule_callers(ctx, "D2", "modify_driver_state", lambda s: "apply_new_driver_state" if s.func is not None and s.func.qualname == "DriverState.apply_new_driver_state" else None,
                        "modify_driver_state is called only by apply_new_driver_state", 1)
+
+
+def driver_updates_total(ctx: Ctx):
+    """perform_driver_state_updates falls back to the state from BEFORE the driver phase when one driver's update yields an
+    error or no state (tabled fold exception, rules.FOLD_EXCEPTIONS). That is harmless only while no driver update can yield
+    'no state': every `update` of every DriverState class returns a state on each non-error path."""
+    repo = ctx.repo
+    n = 0
+    for c in repo.subclasses("DriverState"):
+        fn = repo.method(c, "update")
+        if fn is None or fn.cls is None or fn.cls.name != c.name:
+            continue
+        for p in flow.paths(fn.node):
+            if p.kind != "return":
+                continue
+            k = flow.classify_result(p.value)
+            n += 1
+            ctx.check(k in ("ok", "error", "delegate", "pair"), "D3", "DU.driver-update-total", f"{c.name}.update yields a state on every non-error path", fn, p.end,
+                      why_bad=f"path [{p.cond_text()[:200]}] returns {flow.dump(p.value)[:60]}: perform_driver_state_updates then restarts from the state before the driver phase, "
+                              f"throwing away the shift flips of every driver processed earlier in the step (their on/off events were already filed)",
+                      construct=f"{c.name}.update:no-state")
+    ctx.require(n >= 6, f"driver update paths: only {n} found")
 
 
 def available_props(ctx: Ctx):
